@@ -318,7 +318,9 @@ example : (∃ c, c ∈ ancestors cEnv (cEnv.blocks.length + 1) cM.s.pointer ∧
 invariant `Ledger e x C'` for a suitable ghost log, hence `PoolInv`: one row per key, conservation
 `Σ U + pending fees = total`, and every input of every pending transaction is spent — the pool contains only
 transactions whose effects are present. Hypotheses: those of `crash_state_at_block_boundary`, those of C02
-`walk_Ledger` (which is this statement for the last element alone), and `hfinal` (see `walkTrace_SInv`). -/
+`walk_Ledger` (which is this statement for the last element alone; after the repair of `recoverUnconfirmedTx`: `hskip`, the
+ledger's skip list names every pending transaction the chain walked to confirms, instead of the former dynamic hypothesis
+`hre`), and `hfinal` (see `walkTrace_SInv`). -/
 theorem crash_state_invariants (e : Env) (s : St) (lh : Int) (dest : Nat) (prune : Bool) (g : St) (C C0 : List Nat)
     (W : WalkTree e s.pointer dest) (hinv : KVInv e g)
     (hchain : ChainValid e (ancestors e (e.blocks.length + 1) s.pointer).reverse g)
@@ -329,11 +331,11 @@ theorem crash_state_invariants (e : Env) (s : St) (lh : Int) (dest : Nat) (prune
     (hnd : (C0 ++ blockTxs e (undoTodo e s.pointer dest).2).Nodup)
     (hblk : ∀ bi ∈ (undoTodo e s.pointer dest).2, (∀ i ∈ (e.block bi).txs, (e.tx i).id = i) ∧
       (∀ i ∈ (e.block bi).txs, (e.tx i).coinbase = true → (e.tx i).ins = [] ∧ feeOf (e.tx i).outs = 0))
-    (hre : ∀ i ∈ s.pool, i ∈ C0 ++ blockTxs e (undoTodo e s.pointer dest).2 → (e.tx i).ins ≠ [])
+    (hskip : SkipsConfirmed e s (C0 ++ blockTxs e (undoTodo e s.pointer dest).2))
     (x : St) (hx : x ∈ walkTrace e s lh dest prune) :
     SInv e g x ∧ (∃ C', Ledger e x C') ∧ PoolInv e x ∧
     (∀ i ∈ x.pool, ∀ r ∈ (e.tx i).ins, lookup x.U (r.tx, r.off) = none) := by
-  obtain ⟨C', hC'⟩ := walkTrace_Ledger e s lh dest prune C C0 h hundo hnd hblk hre x hx
+  obtain ⟨C', hC'⟩ := walkTrace_Ledger e s lh dest prune C C0 h hundo hnd hblk hskip x hx
   exact ⟨walkTrace_SInv e s lh dest prune g W hinv hchain hs hfinal x hx, ⟨C', hC'⟩, hC'.toPoolInv,
     hC'.toPoolInv.insSpent⟩
 
@@ -476,13 +478,16 @@ example : ¬ Stored (runOp cEnv (run cEnv cN (cOps.take 2)) (.truncate 1)).l
 
 /-- **an interrupted walk can be resumed**: from every block-boundary state `x` of the trace of a walk, the walk to
 the same destination (same ledger height, same prune flag) performs exactly the remaining batches and returns what
-the interrupted walk would have returned before re-admitting its pool — same verdict, same state, field by field -/
+the interrupted walk would have returned before re-admitting its pool (`repostList e s`: the old pool without the
+transactions the ledger records as confirmed on the chain walked to; the statement formerly said `s.pool`) — same
+verdict, same state, field by field -/
 theorem crash_walk_resume (e : Env) (s : St) (lh : Int) (dest : Nat) (prune : Bool) (W : WalkTree e s.pointer dest)
     (x : St) (hx : x ∈ walkMid e s lh dest prune) :
     walk e x lh dest prune = walkCore e s lh dest prune ∧
     (walk e x lh dest prune).2 = (walk e s lh dest prune).2 ∧
     ((walk e s lh dest prune).2 = true →
-      (walk e s lh dest prune).1 = s.pool.foldl (fun st i => (doTx e st lh i).1) (walk e x lh dest prune).1) ∧
+      (walk e s lh dest prune).1 =
+        (repostList e s).foldl (fun st i => (doTx e st lh i).1) (walk e x lh dest prune).1) ∧
     ((walk e s lh dest prune).2 = false → (walk e x lh dest prune).1 = (walk e s lh dest prune).1) := by
   have h := XV.Crash.walk_resume e s lh dest prune W x hx
   refine ⟨h, by rw [h, walk_ok_iff_core], ?_, ?_⟩
@@ -522,7 +527,8 @@ example : ∀ x ∈ walkMid cEnv cM.s (lh cM) 4 false, ∀ x' ∈ walkTrace cEnv
 Operation `k` of the history walks the state to the ledger tip (`walk tip false`, the node's step after
 `ConfirmBlock` switched the trunk, and the restart itself); the process dies after any batch of it, leaving
 `x = (ledger of the run, s')` with `s'` any element of the trace. Then `x` is a crash state of the history and, with
-`B` the part of the old pool `A ++ B` whose re-admission batches had not been written (the whole old pool when the
+`B` the part of the re-admission list `A ++ B` (`repostList`: the old pool without the transactions the ledger records
+as confirmed on the chain walked to; formerly the old pool) whose batches had not been written (the whole list when the
 crash hit before the first re-admission batch):
 * the restart succeeds exactly when the uninterrupted walk succeeds;
 * on success the state of the uninterrupted run is the recovered state with `B` re-admitted on it, oldest first: all
@@ -539,7 +545,7 @@ theorem crash_recovery_confluent (e : Env) (n : Node) (ops : List Op) (k : Nat)
     (run e n (ops.take k)).withState s' ∈ crashStates e n ops ∧
     run e n (ops.take (k + 1)) = (run e n (ops.take k)).withState
       (walk e (run e n (ops.take k)).s (lh (run e n (ops.take k))) (run e n (ops.take k)).l.tip false).1 ∧
-    ∃ A B, (run e n (ops.take k)).s.pool = A ++ B ∧
+    ∃ A B, repostList e (run e n (ops.take k)).s = A ++ B ∧
       (recover e ((run e n (ops.take k)).withState s')).1.l = (run e n (ops.take (k + 1))).l ∧
       (recover e ((run e n (ops.take k)).withState s')).2 =
         (walk e (run e n (ops.take k)).s (lh (run e n (ops.take k))) (run e n (ops.take k)).l.tip false).2 ∧
